@@ -383,6 +383,15 @@ class BaseWorklist(list):
             raise ValueError(f'"direction" must be either "left_to_right" or "right_to_left"')
         direction_i = 0 if direction == "left_to_right" else 1
 
+        for pname, pvalue in (
+            ("src_start", src_start),
+            ("src_end", src_end),
+            ("dst_start", dst_start),
+            ("dst_end", dst_end),
+        ):
+            if not isinstance(pvalue, (int, numpy.integer)) or pvalue < 0:
+                raise ValueError(f"Invalid {pname}: {pvalue}")
+
         if exclude_wells is None:
             exclude_list = []
         else:
@@ -400,7 +409,7 @@ class BaseWorklist(list):
         else:
             exclude_str = ""
 
-        src_args = (src_rack_label, 1, volume, "", Tip.Any, src_rack_id, "", src_rack_type, "")
+        src_args = (src_rack_label, 1, volume, liquid_class, Tip.Any, src_rack_id, "", src_rack_type, "")
         (
             src_rack_label,
             _,
@@ -413,7 +422,7 @@ class BaseWorklist(list):
             _,
         ) = prepare_aspirate_dispense_parameters(*src_args, max_volume=self.max_volume)
 
-        dst_args = (dst_rack_label, 1, volume, "", Tip.Any, dst_rack_id, "", dst_rack_type, "")
+        dst_args = (dst_rack_label, 1, volume, liquid_class, Tip.Any, dst_rack_id, "", dst_rack_type, "")
         (
             dst_rack_label,
             _,
